@@ -92,7 +92,15 @@ def statement_trees(mins, schema, rnd, n):
         suf = "RSV1" if rs else "RQV1"
         ofx = ["OFX", None, [_c.deepcopy(mins["SIGNONMSGS" + suf])]]
         def wrappers(names):
-            return [_c.deepcopy(mins[x]) for x in (rnd.choice(names) for _ in range(rnd.randrange(0, 4)))]
+            out_ = []
+            for x in (rnd.choice(names) for _ in range(rnd.randrange(0, 5))):
+                w = _c.deepcopy(mins[x])
+                child = {"STMTTRNRS": "STMTRS", "STMTENDTRNRS": "STMTENDRS", "CCSTMTTRNRS": "CCSTMTRS", "CCSTMTENDTRNRS": "CCSTMTENDRS",
+                         "INVSTMTTRNRS": "INVSTMTRS"}.get(x)
+                if child and child not in [k[0] for k in w[2]] and rnd.random() < 0.85:
+                    w[2].append(_c.deepcopy(mins[child]))      # the statement is the last child of a response wrapper
+                out_.append(w)
+            return out_
         t = "TRNRS" if rs else "TRNRQ"
         bank = ["BANKMSGS" + suf, None, wrappers(["STMT" + t, "STMTEND" + t])]
         cc = ["CREDITCARDMSGS" + suf, None, wrappers(["CCSTMT" + t, "CCSTMTEND" + t])]
@@ -106,11 +114,6 @@ def statement_trees(mins, schema, rnd, n):
                 sl[2].append(["SECLIST", None, [_c.deepcopy(mins[rnd.choice(["STOCKINFO", "MFINFO", "DEBTINFO", "OPTINFO", "OTHERINFO"])])
                                                 for _ in range(rnd.randrange(0, 3))]])
             ofx[2].append(sl)
-        # response wrappers may lack their statement
-        for m in ofx[2][1:]:
-            for w in m[2]:
-                if rs and rnd.random() < 0.2 and w[0].endswith("TRNRS"):
-                    w[2] = [k for k in w[2] if not k[0].endswith("STMTRS") and not k[0].endswith("STMTENDRS")]
         out.append(dc.from_nested(ofx))
     return out
 
